@@ -4,7 +4,7 @@ import copy
 import datetime
 import itertools
 
-from ..common import HarnessError, load_impl
+from ..common import load_impl
 from ..engine.shard import Acc, Family, split
 from ..gen import exprs as gx
 from ..ref import expr as rx
@@ -18,10 +18,12 @@ RULE = ('matrix: every (operator, left, right) over the 14 binary operators and 
         'tt(i) reading a tape over {false, true, 0, \'a\'}; a stateless explorer extends the tape at every read position '
         'with every alternative, so all leaf valuations are executed; result, order of leaf evaluations and number of tape '
         'reads are compared with the reference evaluator on the same tape (state = decision-tree node, transition = tape '
-        'decision, trace = complete execution); alias: every expression built-in x every argument tuple of arity <= 3 over a '
+        'decision, trace = complete execution); order: the same explorer over all 14 binary and both unary operators, group, if/1..3 and '
+        'host/script/library calls with 1..3 arguments as node kinds (tape over {false, 2, \'a\', 0}; where an operator result is '
+        'UNSPECIFIED only order and number of leaf evaluations are compared); alias: every expression built-in x every argument tuple of arity <= 3 over a '
         '12-value pool against the library function it is documented to alias; shadow: a global or local binding wins over '
         'every built-in. Non-trivial: a matrix cell whose result is not null; a tree where some valuation leaves a leaf '
-        'unevaluated; an alias call that returns a non-null value; a shadowed name whose built-in accepts the argument 1.')
+        'unevaluated; an order tree with at least two leaves; an alias call that returns a non-null value; a shadowed name whose built-in accepts the argument 1.')
 ASSUMPTIONS = [
     'appendix A.2 operator table; numbers are doubles and exclude booleans; the sign of a zero result is not compared',
     'UNSPECIFIED (skipped, counted): division/modulo by zero, modulo with operands of different sign, non-finite or non-real '
@@ -185,13 +187,14 @@ def rv_show(sym, unary, tier):
 
 
 # ---------------------------------------------------------------------------------------------------------------------
-# (b) order and laziness: effect trees, explored over all tapes
+# (b) order and laziness: effect trees, explored over all tapes. Two families share the machinery:
+#     effects - lazy/eager node kinds to a larger tree size; order - every operator and call arity to a smaller size.
+
+DOMAINS = {'effects': DOMAIN, 'order': [False, 2, 'a', 0]}
 
 
-def shapes(n):
-    if ('shapes', n) not in _CACHE:
-        _CACHE[('shapes', n)] = list(gx.effect_shapes(n))
-    return _CACHE[('shapes', n)]
+def shapes(n, which='effects'):
+    return gx.effect_shape_list(n, which)
 
 
 def effect_env():
@@ -203,9 +206,19 @@ def effect_env():
     return _CACHE['env']
 
 
+def host_hh(args, options):  # pylint: disable=unused-argument
+    return list(args)
+
+
+def ref_ff(vals):
+    """ff is declared with two parameters: a missing argument is null, an extra one is ignored."""
+    return [vals[0] if len(vals) > 0 else None, vals[1] if len(vals) > 1 else None]
+
+
 class Tape:
-    def __init__(self, prefix):
+    def __init__(self, prefix, domain):
         self.prefix = prefix
+        self.domain = domain
         self.reads = 0
         self.log = []
 
@@ -213,14 +226,14 @@ class Tape:
         self.log.append(int(leaf))
         pos = self.reads
         self.reads += 1
-        return DOMAIN[self.prefix[pos]] if pos < len(self.prefix) else DOMAIN[0]
+        return self.domain[self.prefix[pos]] if pos < len(self.prefix) else self.domain[0]
 
 
-def run_impl(model, prefix, how):
+def run_impl(model, prefix, how, domain):
     bs = load_impl()
     ff, array_new = effect_env()
-    tape = Tape(prefix)
-    glob = {'tt': lambda args, options: tape.next(args[0]), 'ff': ff, 'arrayNew': array_new}
+    tape = Tape(prefix, domain)
+    glob = {'tt': lambda args, options: tape.next(args[0]), 'ff': ff, 'arrayNew': array_new, 'hh': host_hh}
     if how == 'expression':
         res = guarded(bs.evaluate_expression, model, {'globals': glob, 'statementCount': 0}, None, False)
     elif how == 'script-model':
@@ -230,40 +243,54 @@ def run_impl(model, prefix, how):
     return (('value', obs(res[1])) if res[0] == 'value' else res), tape.log, tape.reads
 
 
-def run_ref(model, prefix):
-    tape = Tape(prefix)
-    funcs = {'tt': lambda vals: tape.next(vals[0]), 'ff': lambda vals: [vals[0], vals[1]], 'arrayNew': list}
-    res = rx.evaluate(model, {}, funcs)
-    if res is rx.UNSPECIFIED:
-        raise HarnessError('C03 effects: the reference left a tape-valued expression unspecified')
-    return ('value', obs(res)), tape.log, tape.reads
+def run_ref(model, prefix, domain):
+    """(result observation | 'unspecified', log, reads, complete)."""
+    tape = Tape(prefix, domain)
+    funcs = {'tt': lambda vals: tape.next(vals[0]), 'ff': ref_ff, 'arrayNew': list, 'hh': list}
+    res, complete = rx.evaluate_effects(model, {}, funcs)
+    return ('unspecified' if res is rx.UNSPECIFIED else ('value', obs(res))), tape.log, tape.reads, complete
 
 
 def run_effect(model, prefix, acc, case, paths=('expression',)):
-    """One complete execution on one tape, compared with the reference. Returns the number of tape reads (or None after
-    a violation)."""
-    want = run_ref(model, prefix)
+    """One complete execution on one tape, compared with the reference. Returns the number of tape positions that may be
+    branched on (None after a violation)."""
+    domain = DOMAINS[acc.family]
+    want_res, want_log, want_reads, complete = run_ref(model, prefix, domain)
+    if not complete:
+        # a lazy construct had to decide on an UNSPECIFIED value: nothing after that point is defined
+        acc.unspecified += 1
+        return want_reads
     ok = True
     for how in paths:
-        got = run_impl(model, prefix, how)
+        got_res, got_log, got_reads = run_impl(model, prefix, how, domain)
         acc.evals += 1
-        if got != want:
+        bad = None
+        if got_log != want_log:
+            bad = 'order of leaf evaluation'
+        elif got_reads != want_reads:
+            bad = 'number of leaf evaluations'
+        elif want_res != 'unspecified' and got_res != want_res:
+            bad = 'result'
+        if bad:
             ok = False
-            which = 'result' if got[0] != want[0] else ('order of leaf evaluation' if got[1] != want[1] else 'number of leaf evaluations')
             label = how if how in ('expression', 'script-model') else 'script-text'
             acc.violation(dict(case, tape=list(prefix), path=label),
-                          {'result': want[0], 'log': want[1], 'reads': want[2]}, {'result': got[0], 'log': got[1], 'reads': got[2]},
-                          f'{which} differs from the reference evaluator (tape over {DOMAIN})')
+                          {'result': want_res, 'log': want_log, 'reads': want_reads}, {'result': got_res, 'log': got_log, 'reads': got_reads},
+                          f'{bad} differs from the reference evaluator (tape over {domain})')
+    if want_res == 'unspecified':
+        acc.count('value_unspecified_effects_compared')
     acc.traces += 1
-    acc.outcome((want[0], tuple(want[1])))
-    return want[2] if ok else None
+    acc.outcome((want_res, tuple(want_log)))
+    return want_reads if ok else None
 
 
 def explore_tree(n, index, acc):
-    shape = shapes(n)[index]
+    which = acc.family
+    shape = shapes(n, which)[index]
     model, leaves = gx.effect_model(shape)
     text = gx.effect_text(shape)
     case = {'n': n, 'index': index, 'text': text}
+    ndomain = len(DOMAINS[which])
     stack = [()]
     lazy = False
     while stack:
@@ -274,20 +301,22 @@ def explore_tree(n, index, acc):
             return
         if reads < leaves:
             lazy = True
+        reads = max(reads, len(prefix))
         new_nodes = reads - len(prefix) + 1
         acc.states += new_nodes
         acc.transitions += new_nodes - (0 if prefix else 1)
         choices = prefix + (0,) * (reads - len(prefix))
         for pos in range(reads - 1, len(prefix) - 1, -1):
-            for alt in range(len(DOMAIN) - 1, 0, -1):
+            for alt in range(ndomain - 1, 0, -1):
                 stack.append(choices[:pos] + (alt,))
-    if lazy:
+    if (lazy and which == 'effects') or (leaves >= 2 and which == 'order'):
         acc.nontrivial += 1
 
 
 def check_effects(case, acc):
+    which = acc.family
     if 'tape' in case:
-        shape = shapes(case['n'])[case['index']]
+        shape = shapes(case['n'], which)[case['index']]
         model, _ = gx.effect_model(shape)
         path = case.get('path', 'expression')
         paths = (gx.effect_text(shape),) if path == 'script-text' else (path,)
@@ -297,14 +326,14 @@ def check_effects(case, acc):
 
 
 def fam_effects(arg):
-    n, shard, nshards = arg
-    acc = Acc('effects')
-    total = len(shapes(n))
+    which, n, shard, nshards = arg
+    acc = Acc(which)
+    total = len(shapes(n, which))
     for index in range(shard, total, nshards):
         acc.cases += 1
         explore_tree(n, index, acc)
         if index < 2 * nshards:
-            acc.sample({'tree': gx.effect_text(shapes(n)[index])})
+            acc.sample({'tree': gx.effect_text(shapes(n, which)[index])})
     return acc.result()
 
 
@@ -470,16 +499,23 @@ def fam_shadow(arg):
 # ---------------------------------------------------------------------------------------------------------------------
 
 
+def tree_shards(which, nmax):
+    out = []
+    for n in range(nmax + 1):
+        total = len(shapes(n, which))
+        k = 1 if total < 500 else (16 if total < 50000 else 128)
+        out += [(which, n, s, k) for s in range(k)]
+    return out
+
+
 def families(tier):
     quick = tier == 'quick'
     npool = len(gx.matrix_pool(tier, None))
     ops = BINARY + ['unary' + u for u in UNARY]
     nmax = 3 if quick else 4
-    effect_shards = []
-    for n in range(nmax + 1):
-        total = len(shapes(n))
-        k = 1 if total < 500 else (16 if total < 50000 else 128)
-        effect_shards += [(n, s, k) for s in range(k)]
+    effect_shards = tree_shards('effects', nmax)
+    omax = 2 if quick else 3
+    order_shards = tree_shards('order', omax)
     names = [a for a, _, _ in ALIASES]
     ntuples = sum(len(gx.ALIAS_POOL) ** k for k in range(MAX_ARITY + 1))
     return [
@@ -489,6 +525,10 @@ def families(tier):
         Family('effects', fam_effects, effect_shards,
                f'every effect tree with <= {nmax} internal nodes over 12 node kinds, all tapes over a 4-value domain',
                expected=sum(gx.tree_count(n, leaves=1, unary_labels=3, binary_labels=8, ternary_labels=1) for n in range(nmax + 1))),
+        Family('order', fam_effects, order_shards,
+               f'every effect tree with <= {omax} internal nodes over {len(gx.ORDER_LABELS)} node kinds (14 binary and 2 unary operators, group, '
+               f'if/1..3, host and script calls with 1..3 arguments, arrayNew/2), all tapes over {DOMAINS["order"]}',
+               expected=sum(gx.tree_count(n, 1, *gx.label_counts('order')) for n in range(omax + 1))),
         Family('alias', fam_alias, split(names, 46),
                f'{len(names)} expression built-ins x every argument tuple of arity <= {MAX_ARITY} over {len(gx.ALIAS_POOL)} values ({ntuples} tuples; now/today/rand called once)',
                expected=(len(names) - len(NONDETERMINISTIC)) * ntuples + len(NONDETERMINISTIC)),
@@ -496,7 +536,7 @@ def families(tier):
     ]
 
 
-_CHECKS = {'matrix': check_matrix, 'effects': check_effects, 'alias': check_alias, 'shadow': check_shadow}
+_CHECKS = {'matrix': check_matrix, 'effects': check_effects, 'order': check_effects, 'alias': check_alias, 'shadow': check_shadow}
 
 
 def replay(family, case):
